@@ -569,8 +569,8 @@ pub fn run(ctx: &Ctx) -> i32 {
     // large programs: k clauses, each with its own matcher and printer (identifier numbers, frame
     // tags and table keys grow with k); every clause's output is checked on records aimed at it
     let ks: Vec<usize> = match ctx.tier {
-        Tier::Quick => vec![4, 5, 8, 9, 16, 17, 33, 64],
-        Tier::Thorough => (1..=40).chain([64, 65, 100, 127, 128, 129, 200, 255, 256, 257, 300]).collect(),
+        Tier::Quick => (1..=40).chain([64, 65, 100, 128, 129]).collect(),
+        Tier::Thorough => (1..=300).collect(),
     };
     let mut larges = vec![];
     for &k in &ks {
